@@ -56,7 +56,11 @@ def handleMock (toks : List String) : String :=
     let reqcup := (argOf toks "reqcup") == some "1"
     let uri ← (argOf toks "uri").bind parseBytes
     let apps ← (argOf toks "apps").bind (listTok ";" parseReqApp)
-    let cfg : Cfg := { responses := resp, latest := latest.1, historical := hist.map (·.1), etagOverride := override, requireCup := reqcup }
+    -- `prev=`: the server was started with these responses and then reconfigured to `resp`
+    let prev : Option (List (Bytes × RespMeta)) := (argOf toks "prev").bind (listTok ";" parseRespMeta)
+    let cfg : Cfg := match prev with
+      | some p => setResponses { responses := p, latest := latest.1, historical := hist.map (·.1), etagOverride := override, requireCup := reqcup } resp
+      | none => { responses := resp, latest := latest.1, historical := hist.map (·.1), etagOverride := override, requireCup := reqcup }
     let keyIdxOf (id : Nat) : Option Nat := if latest.1 = id then some latest.2 else (hist.find? (·.1 = id)).map (·.2)
     match handle cfg uri apps with
     | .status500 => pure "status500"
